@@ -92,7 +92,11 @@ func (e *Engine) DetachHandler(prefix enc.Name) error {
 	if n == nil {
 		return ndn.ErrInvalidValue{Item: "prefix", Value: prefix}
 	}
-	n.Delete()
+	// Remove this handler only: handlers attached at shorter or longer prefixes stay.
+	n.SetValue(nil)
+	n.DeleteIf(func(h fibEntry) bool {
+		return h == nil
+	})
 	return nil
 }
 
